@@ -41,6 +41,8 @@ fn rcode_of(n: u16) -> RCODE {
         8 => RCODE::NXRRSET, 9 => RCODE::NOTAUTH, 10 => RCODE::NOTZONE, 16 => RCODE::BADVERS, _ => RCODE::Reserved }
 }
 
+fn qtext(p: &Packet) -> Vec<String> { p.questions.iter().map(text::question).collect() }
+
 pub fn cases(_tier: &str, _seed: u64) -> Vec<Case> {
     let mut v: Vec<Case> = Vec::new();
     let flags = text::ALL_FLAGS;
@@ -164,6 +166,53 @@ pub fn cases(_tier: &str, _seed: u64) -> Vec<Case> {
                     && s.opcode == (*o as u16) && s.rcode == (*r as u16) % 16 && s.z == 0 && got_bits == exp_bits
                     && bytes[4..] == [0u8; 8];
                 if !ok { c = c.fail("header-written", format!("opcode {:?} rcode {:?} flags {:#x} written as {:#06x}", o, r, exp_bits, w)); }
+                v.push(c);
+            }
+        }
+    }
+    // constructor side: new_query / new_reply / into_reply / set_id
+    for id in [0u16, 1, 255, 256, 0x1234, 0x8000, 0xFFFF] {
+        let q = Packet::new_query(id);
+        let qb = q.build_bytes_vec().unwrap();
+        let mut c = Case::new(format!("api newq {}", id), format!("{} ok {}", text::packet(&q), text::hex(&qb))).tag("api");
+        if qb.len() != 12 || qb[0..2] != id.to_be_bytes() || qb[2..] != [0u8; 10] { c = c.fail("new-query-header", format!("new_query({}) is not the id followed by ten zero bytes", id)); }
+        v.push(c);
+        let r = Packet::new_reply(id);
+        let rb = r.build_bytes_vec().unwrap();
+        let mut c = Case::new(format!("api newr {}", id), format!("{} ok {}", text::packet(&r), text::hex(&rb))).tag("api");
+        if rb.len() != 12 || rb[0..2] != id.to_be_bytes() || rb[2..4] != [0x80, 0] || rb[4..] != [0u8; 8] { c = c.fail("new-reply-header", format!("new_reply({}) is not id, QR alone, zero counts", id)); }
+        v.push(c);
+    }
+    {
+        let mut g = crate::gen::Gen::new(_seed ^ 0xA91);
+        for i in 0..(if _tier == "thorough" { 3000 } else { 300 }) {
+            let mut p = g.packet(3);
+            if i % 2 == 0 { *p.opcode_mut() = *g.rng.pick(&crate::gen::Gen::OPCODES); *p.rcode_mut() = *g.rng.pick(&crate::gen::Gen::RCODES); p.set_flags(set_of(g.rng.below(128) as u32)); }
+            let before = p.clone();
+            let reply = p.clone().into_reply();
+            let mut c = Case::new(format!("api reply {}", text::packet(&before)), text::packet(&reply)).tag("api").tag("into_reply");
+            let rb = reply.build_bytes_vec();
+            let ok = reply.id() == before.id() && reply.opcode() == before.opcode() && reply.rcode() == RCODE::NoError
+                && reply.opt().is_none() && text::flag_bits(&reply) == 0x8000
+                && qtext(&reply) == qtext(&before) && reply.answers == before.answers
+                && reply.name_servers == before.name_servers && reply.additional_records == before.additional_records;
+            if !ok { c = c.fail("into-reply", "into_reply does not keep id, opcode and sections / does not reset flags, rcode, EDNS".into()); }
+            if let Ok(b) = rb {
+                let w = u16::from_be_bytes([b[2], b[3]]);
+                let s = rfc(w);
+                if !(s.qr == 1 && s.opcode == before.opcode() as u16 && s.rcode == 0 && s.z == 0 && s.aa + s.tc + s.rd + s.ra + s.ad + s.cd == 0) { c = c.fail("reply-header-written", format!("reply header word {:#06x}", w)); }
+            }
+            v.push(c);
+            let nid = g.u16();
+            let mut p2 = before.clone();
+            p2.set_id(nid);
+            let mut c = Case::new(format!("api setid {} {}", nid, text::packet(&before)), text::packet(&p2)).tag("api");
+            if p2.id() != nid || p2.opcode() != before.opcode() || p2.rcode() != before.rcode() || text::flag_bits(&p2) != text::flag_bits(&before) || qtext(&p2) != qtext(&before) || p2.answers != before.answers { c = c.fail("set-id", "set_id touches more than the id".into()); }
+            v.push(c);
+            if let Some(r) = before.answers.first() {
+                let f = r.to_cache_flush_record();
+                let mut c = Case::new(format!("api flush {}", text::rr(r)), text::rr(&f)).tag("api");
+                if !(f.cache_flush && f.name == r.name && f.class == r.class && f.ttl == r.ttl && f.rdata == r.rdata) { c = c.fail("to-cache-flush", "to_cache_flush_record changes more than the cache-flush bit".into()); }
                 v.push(c);
             }
         }
